@@ -341,7 +341,8 @@ func (r *stageRig) onHook(label string, kv ...any) {
 		r.doneEvts = append(r.doneEvts, "validate:"+first)
 		r.doneEvts = append(r.doneEvts, "validatek:"+vkey)
 		r.cond.Broadcast()
-	case "stage.process.end":
+	case "stage.process.end", "stage.recover.dup.end":
+		// (the duplicate branch of Recover's validate loop stands in for process(): same gate, same done event)
 		r.doneEvts = append(r.doneEvts, "process:"+first)
 		r.doneEvts = append(r.doneEvts, "processk:"+vkey)
 		r.cond.Broadcast()
@@ -350,7 +351,7 @@ func (r *stageRig) onHook(label string, kv ...any) {
 		r.pendF--
 		r.doneEvts = append(r.doneEvts, "finalize:"+first)
 		r.cond.Broadcast()
-	case "stage.process.begin", "stage.finh.begin":
+	case "stage.process.begin", "stage.finh.begin", "stage.recover.dup.begin":
 		if r.auto {
 			break
 		}
@@ -607,6 +608,18 @@ type stageExec struct {
 	crashes   int                   // crash / cut operations in this case
 	confirmed map[string]bool       // names ever answered passed / waiting
 	consumed  map[string]bool       // targets the harness consumed from the final directory
+	// crash images in which a version was logged but not yet moved (`<name>.wait` with the MD5 of a receive-log
+	// record of that name): name|md5 -> how often. Only such a crash may repeat a record (oracleOnce).
+	tolerated map[string]int
+	maxSpan   int64                   // largest |time offset| used by an op of this case (cache ageing needs > 20 h)
+	taken     map[string]*takenFile   // target -> what the consumer took last (oracle delivered-twice)
+}
+
+// takenFile: a delivered file the consumer took from the final directory, and how many parts of each name had
+// arrived by then.
+type takenFile struct {
+	md5  string
+	narr map[string]int
 }
 
 func newStageExec() *stageExec {
@@ -614,7 +627,8 @@ func newStageExec() *stageExec {
 	return &stageExec{rig: rig, err: err, md5Of: map[string]string{}, tokOf: map[string]string{},
 		names: map[string]bool{}, targets: map[string]bool{}, handles: map[string]*pendingRecv{},
 		kinds: map[string]bool{}, delivered: map[string][]byte{}, versions: map[string]map[string]bool{}, corrupted: map[string]bool{},
-		acked: map[string][][2]int64{}, oldLogged: map[string]int64{}, written: map[string][][2]int64{}, exempt: map[string]bool{}, misfed: map[string]bool{}, arrivals: map[string][]arrival{}, failedAt: map[string]int{}, prevOf: map[string]string{}, confirmed: map[string]bool{}, consumed: map[string]bool{}}
+		acked: map[string][][2]int64{}, oldLogged: map[string]int64{}, written: map[string][][2]int64{}, exempt: map[string]bool{}, misfed: map[string]bool{}, arrivals: map[string][]arrival{}, failedAt: map[string]int{}, prevOf: map[string]string{}, confirmed: map[string]bool{}, consumed: map[string]bool{},
+		tolerated: map[string]int{}, taken: map[string]*takenFile{}}
 }
 
 func parseBodyTok(s string) ([]byte, bool) {
@@ -682,6 +696,11 @@ func (e *stageExec) tm(off string) (time.Time, bool) {
 	v, err := strconv.ParseInt(off, 10, 64)
 	if err != nil {
 		return time.Time{}, false
+	}
+	if v > e.maxSpan {
+		e.maxSpan = v
+	} else if -v > e.maxSpan {
+		e.maxSpan = -v
 	}
 	return time.Unix(e.rig.base+v, 0), true
 }
@@ -805,6 +824,7 @@ func (e *stageExec) Do(op []string) string {
 		}
 		e.handles = map[string]*pendingRecv{}
 		r.newInstance(snap)
+		e.noteImage()
 		kk := k
 		if count < kk {
 			kk = count
@@ -993,6 +1013,13 @@ func (e *stageExec) do1(op []string) string {
 		t := unesc(op[1])
 		e.scanFinal()
 		e.consumed[t] = true
+		if b, err := os.ReadFile(filepath.Join(r.final, t)); err == nil {
+			tf := &takenFile{md5: md5hex(b), narr: map[string]int{}}
+			for n, a := range e.arrivals {
+				tf.narr[n] = len(a)
+			}
+			e.taken[t] = tf
+		}
 		os.Remove(filepath.Join(r.final, t))
 		return "ok"
 	case len(op) == 5 && op[0] == "corrupt":
@@ -1143,6 +1170,7 @@ func (e *stageExec) do1(op []string) string {
 		copyTree(filepath.Dir(r.root), dst)
 		e.handles = map[string]*pendingRecv{}
 		r.newInstance(dst)
+		e.noteImage()
 		return "ok"
 	case len(op) == 9 && op[0] == "received":
 		ft, ok := e.tm(op[5])
@@ -1420,6 +1448,7 @@ func (e *stageExec) scanFinal() {
 			}
 			if t == rel && l.hash == h {
 				ok = true
+				e.oracleTakenAgain(rel, h, l.name)
 				// byte-identical to an announced version of that name
 				tok := modelHashOfBody(b)
 				if vs := e.versions[l.name]; vs != nil && !vs[tok] {
@@ -1539,7 +1568,8 @@ func (e *stageExec) oracleOnce() {
 	// that name in between (a version that came back after a different one is a new delivery)
 	last := map[string]string{}
 	rep := map[string]int{}
-	idx := map[string]int{} // records of the name seen so far
+	repV := map[string]int{} // the same per version (name|md5)
+	idx := map[string]int{}  // records of the name seen so far
 	for _, l := range e.readLog() {
 		if last[l.name] == l.hash {
 			// ... and without a part of another version of that name having ARRIVED in between (it may have been
@@ -1553,6 +1583,7 @@ func (e *stageExec) oracleOnce() {
 			}
 			if !other {
 				rep[l.name]++
+				repV[l.name+"|"+l.hash]++
 			}
 		}
 		last[l.name] = l.hash
@@ -1563,6 +1594,67 @@ func (e *stageExec) oracleOnce() {
 			e.fails = append(e.fails, fmt.Sprintf("logged-twice: %d repeated receive-log record(s) for the same version of %s with %d crash(es) in the history", c, name, e.crashes))
 		}
 	}
+	// Precisely: a record may repeat only for a crash BETWEEN the log record and the move, i.e. a crash image that
+	// holds `<name>.wait` with the MD5 of a record of that name (noteImage). Any other repeat means the version was
+	// validated, logged and delivered again. Judged only when the receiver cannot have forgotten the delivery by
+	// design (cache ageing: cleancache, or times more than 20 h apart).
+	if e.kinds["cleancache"] || e.kinds["oldlog"] || e.maxSpan > 20*3600 {
+		return
+	}
+	for key, c := range repV {
+		if c > e.tolerated[key] {
+			i := strings.LastIndex(key, "|")
+			e.fails = append(e.fails, fmt.Sprintf("logged-twice: %d repeated receive-log record(s) for version %s of %s, but only %d crash(es) fell between its log record and its move", c, e.tokOfHash(key[i+1:]), key[:i], e.tolerated[key]))
+		}
+	}
+}
+
+// noteImage is called on a fresh crash image: a `<name>.wait` whose MD5 is that of a receive-log record of the name
+// is a version that was logged and not yet moved; finishing it after the restart repeats the record (tolerated).
+func (e *stageExec) noteImage() {
+	r := e.rig
+	recs := e.readLog()
+	filepath.Walk(r.root, func(p string, info os.FileInfo, err error) error {
+		if err != nil || info.IsDir() || filepath.Ext(p) != ".wait" {
+			return nil
+		}
+		rel, _ := filepath.Rel(r.root, p)
+		name := strings.TrimSuffix(rel, ".wait")
+		b, err := os.ReadFile(p)
+		if err != nil {
+			return nil
+		}
+		h := md5hex(b)
+		for _, l := range recs {
+			if l.name == name && l.hash == h {
+				e.tolerated[name+"|"+h]++
+				break
+			}
+		}
+		return nil
+	})
+}
+
+// oracleTakenAgain: C05/C06 — a delivered file that the consumer took is not delivered again: the same bytes do not
+// reappear under the same target unless the sender sent another version of that name in between (then it is a new
+// delivery) or the receiver may have forgotten the delivery by design (cache ageing).
+func (e *stageExec) oracleTakenAgain(target, md5 string, name string) {
+	tf := e.taken[target]
+	if tf == nil || tf.md5 != md5 {
+		return
+	}
+	delete(e.taken, target) // report once
+	if e.kinds["cleancache"] || e.kinds["oldlog"] || e.maxSpan > 20*3600 || e.corrupted[name] {
+		return
+	}
+	tok := e.tokOfHash(md5)
+	arr := e.arrivals[name]
+	for _, a := range arr[min(tf.narr[name], len(arr)):] {
+		if a.tok != tok {
+			return
+		}
+	}
+	e.fails = append(e.fails, fmt.Sprintf("delivered-twice: %s (%s) was delivered, taken by the consumer, and is in the final directory again although no other version of %s arrived in between", target, tok, name))
 }
 
 // oracleNotLost: C06 — a file that was reported as passed / waiting is delivered (or was
@@ -1611,8 +1703,26 @@ func (e *stageExec) oracleNotLost() {
 		if e.consumed[t] || e.corrupted[l.name] || e.otherVersionSeen(l.name, tok) {
 			continue
 		}
-		if b, err := os.ReadFile(filepath.Join(r.final, t)); err == nil && md5hex(b) == l.hash {
-			continue
+		if b, err := os.ReadFile(filepath.Join(r.final, t)); err == nil {
+			if md5hex(b) == l.hash {
+				continue
+			}
+			// the file IS there but its bytes are those of no logged version of this target (overwritten after the
+			// delivery, e.g. through a stale handle: known finding S1): that is an integrity failure, reported by
+			// scanFinal as final-unlogged-or-mismatch (C01), not a lost file
+			known := false
+			for _, x := range e.readLog() {
+				xt := x.renamed
+				if xt == "" {
+					xt = x.name
+				}
+				if xt == t && x.hash == md5hex(b) {
+					known = true
+				}
+			}
+			if !known {
+				continue
+			}
 		}
 		if _, err := os.Stat(filepath.Join(r.final, t) + ".lck"); err == nil {
 			continue
